@@ -599,6 +599,14 @@ func (c *Context) onKilled(message *vivid.OnKilled, behavior vivid.Behavior) {
 
 	v := chain.NewVoid()
 	if c.zombie {
+		// 僵尸仅由针对自身的终止请求释放，且只释放一次：其他 Actor 的死亡通知不应触发释放；
+		// 释放后清除僵尸标记（状态保持 killed），此后到达的消息（包括重复的 OnKill）按已终止 Actor 处理进入死信。
+		// 否则每个到达僵尸的 OnKill 都会完整执行一次清理：重复发布 ActorKilledEvent、重复通知父级，
+		// 迟到的第二个 OnKilled 会把父级此时已重新创建的同名子 Actor 从其 children 中删除，留下无人终止的孤儿。
+		if !message.Ref.Equals(c.ref) {
+			return
+		}
+		c.zombie = false
 		handler.shouldContinue = true
 		handler.prepareSelfKilledMessage()
 		handler.restarting = false
